@@ -150,6 +150,14 @@ func (s *SpecD) HasLoop() bool {
 var nodeNames = []string{"start", "a", "b", "c", "d"}
 var bkeys = []string{"count", "flag", "t", "keep!", "cfg!", "note"}
 
+// boom returns a failure message that is unique to its site: the ECMAScript interpreter appends
+// the source position to a thrown message, so two sites with the same message would give texts
+// that differ in the implementation only after the position is normalised away.
+func (g *G) boom() string {
+	g.Seq++
+	return fmt.Sprintf("boom:%d", g.Seq)
+}
+
 func (g *G) litValue() interface{} {
 	switch g.Intn(6) {
 	case 0:
@@ -194,7 +202,7 @@ func (g *G) Action(guard bool, mode string) *Prog {
 				p.Ops = append(p.Ops, []interface{}{"set", g.PickS("?x", "?n"), g.Scalar()})
 			}
 		default:
-			p.Ops = append(p.Ops, []interface{}{"iffail", g.PickS("flag", "count", "?x"), "boom:" + g.PickS("a", "b")})
+			p.Ops = append(p.Ops, []interface{}{"iffail", g.PickS("flag", "count", "?x"), g.boom()})
 		}
 	}
 	// failure modes, at a random position so that emissions precede some of them
@@ -202,14 +210,14 @@ func (g *G) Action(guard bool, mode string) *Prog {
 		var f []interface{}
 		switch g.Intn(8) {
 		case 0, 1, 2, 3:
-			f = []interface{}{"fail", "boom:" + g.PickS("x", "y")}
+			f = []interface{}{"fail", g.boom()}
 		case 4:
 			f = []interface{}{"emitBad"}
 		case 5:
 			if mode == "timeouts" {
 				f = []interface{}{"loop"}
 			} else {
-				f = []interface{}{"fail", "boom:z"}
+				f = []interface{}{"fail", g.boom()}
 			}
 		default:
 			f = nil
